@@ -55,6 +55,7 @@ impl Family for C18Family {
             real: &["passkey_authenticator::Ctap2Api impl for Authenticator", "Authenticator::{get_info,make_credential,get_assertion}", "lock wrappers", "MemoryStore"],
             stubs: &["executor", "SimStore seam", "SimUser", "seeded RNG behind the hook"],
             crash_isolated: true,
+            fresh_thread: true,
         }
     }
 
